@@ -18,20 +18,13 @@ import vlib
 from props import wirelib as W
 
 PROP = "C14"
-COQ_FILES = ["Reload/Model.v", "Reload/Proofs.v", "Reload/Props.v"]
+COQ_FILES = ["Reload/Model.v", "Reload/Proofs.v", "Reload/Mutants.v", "Reload/Props.v"]
 BACKENDS = ["b0", "b1", "b2", "b3", "b4", "bd"]          # bd starts "down_held" (connection refused, port reserved)
 DBID = {"pa": 0, "pb": 1, "pc": 2}
 USERID = {"u": 0, "v": 1}
-F12 = "F12-config-stored-before-pools-built"
-F12_TEXT = ("F12 reload_config stores the new CONFIG (parse) before ConnectionPool::from_config has built the pools: when a build fails "
-            "(validate_config = true, min_pool_size >= 1, server unreachable) the reload returns Err, POOLS keeps the old pools while CONFIG "
-            "(SHOW CONFIG, the next comparison) is the new file; every later RELOAD/SIGHUP of the same file compares it with the stored copy, "
-            "answers Ok(false)/'RELOAD' and never builds the pools, even after the server is back")
-
-D2 = "D2-pool-mode-stale-in-connected-clients"
-D2_TEXT = ("D2 (minor) a reload that changes pool_mode is not in effect for clients that are already connected: Client.transaction_mode is computed once at "
-           "start-up (client.rs:734/786) and not refreshed after get_pool() (client.rs:1081); such a client runs its next transactions on the NEW pool object "
-           "but releases (or keeps) the server connection by the OLD mode")
+# repaired findings, kept as regression inputs (known_findings.jsonl: status "fixed")
+F12 = "F12-config-stored-before-pools-built"     # 0510794: reload_config restores the old CONFIG when from_config fails
+D2 = "D2-pool-mode-not-refreshed"                # a374b10: Client.transaction_mode is refreshed after get_pool() at every checkout
 
 GEN_BASE = {"host": "127.0.0.1", "port": 6432, "admin_username": "admin", "admin_password": "adminpw",
             "connect_timeout": 300, "healthcheck_timeout": 500, "healthcheck_delay": 30000, "shutdown_timeout": 1500,
@@ -417,8 +410,6 @@ class Script:
         self.clients[c] = (db, usr)
         if (db, usr) not in keys_of(self.inforce):
             self.never.add(c)
-        # client.rs:734/786: Client.transaction_mode is fixed when the client connects (see D2 below)
-        self.mode_at_connect[c] = self.session_mode(c)
         self.connect_step[c] = len(self.steps)
         self.steps.append({"op": "connect", "c": c, "params": {"user": usr, "database": db}, "password": pw, "timeout_ms": 3000})
         self.ops.append(("connect", c, db, usr))
@@ -447,7 +438,9 @@ class Script:
         self.steps += q(c, "BEGIN", "op%d:begin" % k) + q(c, self.sql(c), "op%d:first" % k)
         self.ops.append(("begin", c))
         self.mark()
-        if self.mode_at_connect.get(c) and c not in self.never:
+        # client.rs:1081-1083: the pool AND transaction_mode are refreshed at every checkout (D2 regression: before a374b10
+        # the mode was the one of the pool the client had connected to)
+        if self.session_mode(c) and c not in self.never:
             self.keeps.add(c)
 
     def inside(self, c):
@@ -500,8 +493,8 @@ class Script:
             self.steps.append({"op": "control", "sig": "hup"})
             self.steps.append({"op": "sleep", "ms": 70 + slow})
         self.ops.append(("reload", i))
-        if f["kind"] == "valid" and not f.get("dead") and not f.get("revive"):
-            self.inforce = f["sem"]
+        if f["kind"] == "valid" and not f.get("dead"):
+            self.inforce = f["sem"]     # a file whose pools cannot be built is not in force; the retry with the server back is
         self.mark(10)
         if trig == "admin":
             self.admin_show("post%d" % k)
@@ -844,8 +837,8 @@ def monitors(case, script, res, impl):
         pre, post = i["pre"], i["state"]
         win = [e for e in ev if i["pre_seq"] < e["seq"] < i["seq"] and e.get("who") in BACKENDS and e.get("ev") in ("open", "close")]
         res_ok = i["obs"][1] in (1, 2, "ok")
-        if f["kind"] != "valid":
-            # S1: invalid file => Err, configuration, pools and server connections as they were
+        if f["kind"] != "valid" or f.get("dead"):
+            # S1: invalid file (or, F12 regression, a file whose pools cannot be built) => Err, configuration, pools and server connections as they were
             if i["obs"][1] not in (0, "err", None):
                 V.append(("S1", "reload of an invalid file (%s) did not fail: %s" % (case["name"], i["obs"])))
             if pre["config"] != post["config"]:
@@ -882,8 +875,10 @@ def monitors(case, script, res, impl):
                 if bad:
                     V.append(("S2", "%s: pool %s unchanged but its server connections were opened/closed during the reload: %s" % (case["name"], key, bad)))
         # S3: valid file accepted => CONFIG is the new file and POOLS is exactly what it describes
-        if i["obs"][1] in (0, "err", 3) and not f.get("dead"):
+        if i["obs"][1] in (0, "err", 3):
             V.append(("S3", "%s: reload of a valid file failed: %s" % (case["name"], i["obs"])))
+        if f.get("revive") and i["obs"][1] in (1,):
+            V.append(("S3", "%s: regression of %s: the file whose build had failed is reported 'unchanged' (Ok(false)) by the next reload" % (case["name"], F12)))
         want = {}
         for n, p in new["pools"].items():
             for u in p["users"]:
@@ -893,10 +888,7 @@ def monitors(case, script, res, impl):
         cfg_is_new = {n: set(us) for n, us in post_users.items()} == {n: {u["username"] for u in p["users"]} for n, p in new["pools"].items()}
         if want != have or not cfg_is_new:
             msg = "%s: after the reload CONFIG has pools %s; POOLS %s; the file describes %s" % (case["name"], sorted(newh), have, want)
-            if f.get("dead") or f.get("revive") or last_valid is not cur:
-                f12.append(msg)
-            else:
-                V.append(("S3", msg))
+            V.append(("S3", msg + (" [regression of %s]" % F12 if f.get("revive") else "")))
         else:
             cur = new
         last_valid = new if cfg_is_new else last_valid
@@ -999,8 +991,8 @@ def is_warm(case):
             return True      # the model has one server address per pool: no comparison of server connections
     for sem in [BASES[case["base"]]] + [f["sem"] for f in case["files"] if f.get("sem")]:
         g = dict(GEN_BASE); g.update(sem.get("general", {}))
-        if g.get("validate_config") and not any(f.get("dead") for f in case["files"]):
-            return True
+        if g.get("validate_config"):
+            return True      # pools built with validate_config open connections on their own (bb8 min_idle, background validate())
     return False
 
 
@@ -1040,7 +1032,7 @@ def evaluate(run, case, script, res, model, stats):
 def check(run):
     quick = run.tier == "quick"
     run.assumptions += [
-        "Coq 8.16.1 kernel + vm_compute; no axioms (Print Assumptions: closed under the global context for all 16 theorems)",
+        "Coq 8.16.1 kernel + vm_compute; no axioms (Print Assumptions: closed under the global context for all theorems of Reload/Props.v)",
         "coq/Reload/Model.v is a hand transcription of config.rs parse/reload_config, pool.rs from_config/get_pool and the get_pool call sites of client.rs, at the granularity "
         "'one reload' / 'one transaction start or end'; validated per run against pgcat in-process",
         "Pool::hash_value is a parameter of the model (hashf); theorems that need distinct definitions to hash differently state hash_inj; the tie checks per case that "
@@ -1079,26 +1071,11 @@ def check(run):
             f12_seen.append((case, f12[0]))
         if dis and first_dis is None:
             first_dis = (case, dis, model)
-    if f12_seen:
-        e = known.get(F12)
-        case, msg = f12_seen[0]
-        if e is not None and e.get("status") == "fixed":
-            run.violation("counterexample", "regression of %s: %s" % (F12, msg), {"input": slim(case), "class": F12, "case": case_key(case)})
-        else:
-            line = (e.get("line") or e.get("what")) if e else None
-            run.known_finding(line or (F12_TEXT + " [confirmed on %d cases, e.g. %s; reported, not yet listed in known_findings.jsonl]" % (len(f12_seen), case["name"])), key=F12)
-    else:
-        e = known.get(F12)
-        if e is not None and e.get("status") == "known" and ok:
-            run.violation("tie-broken", "known finding %s is listed, c14_partial_refuted is proved for the model, but no f12 case shows it on the implementation any more: update Model.v / known_findings.jsonl" % F12,
-                          {"correspondence": "F12 witness vs wire run"}, found_input=False)
-    if stats.get("d2"):
-        e = known.get(D2)
-        if e is not None and e.get("status") == "fixed":
-            run.violation("counterexample", "regression of %s: %s" % (D2, stats["d2"][0]), {"class": D2, "hit": stats["d2"][0]})
-        else:
-            line = (e.get("line") or e.get("what")) if e else None
-            run.known_finding(line or (D2_TEXT + " [confirmed on %d cases, e.g. %s; reported, not yet listed in known_findings.jsonl]" % (len(stats["d2"]), stats["d2"][0])), key=D2)
+    # F12 and D2 are repaired in /repo: their scenarios are regression inputs now, any hit is a violation
+    for case, msg in f12_seen[:1]:
+        run.violation("counterexample", "regression of %s: %s" % (F12, msg), {"input": slim(case), "class": F12, "case": case_key(case)})
+    for hit in stats.get("d2", [])[:1]:
+        run.violation("counterexample", "regression of %s: %s" % (D2, hit), {"class": D2, "hit": hit})
     if first_dis and not run.violations:
         case, dis, model = first_dis
         run.cov["disagreements_checked"] += 1
@@ -1109,13 +1086,13 @@ def check(run):
     run.cov["distinct_nontrivial"] = len(distinct)
     run.cov["rule"] = ("old file (2 bases x 4 renderings) x new file: %d valid kinds (identical, reformatted, defaults written out, general-only, server replaced/added/swapped, "
                        "password, pool_size, pool_mode, default_role, timeouts, user added/removed, pool added/removed, combinations), %d rejected files (10 TOML/serde errors, "
-                       "33 validate() rules, file deleted), 2 files whose pools cannot be built (F12) — each x 3 moments (before the first transaction / inside an open "
+                       "33 validate() rules, file deleted), 2 valid files whose pools cannot be built (regression of F12: must be a no-op, the retry with the server back must rebuild) — each x 3 moments (before the first transaction / inside an open "
                        "transaction / between transactions), trigger rotating over reload_config / admin RELOAD / SIGHUP arm; every case has a second reload (same file, a valid "
                        "changed file after a rejected one, or the revived server) and transactions of 3-6 clients before/after; + seeded chains of two valid files. "
                        "distinct = distinct (old text, new texts, timing, trigger); all non-trivial (>= 2 reloads, >= 6 transactions)"
                        % (len(valid_kinds()), len(invalid_kinds())))
     run.cov["input_distribution"] = {"cases": len(cases), "first_file_kind": kinds, "distinct_old_new_pairs": len(pairs), "model_steps_compared": stats["steps"],
-                                     "observations": stats["obs"], "f12_cases_confirmed": len(f12_seen), "d2_stale_mode_hits": len(stats.get("d2", []))}
+                                     "observations": stats["obs"], "f12_regression_cases": sum(1 for c in cases if c["files"][0].get("dead")), "f12_hits": len(f12_seen), "d2_stale_mode_hits": len(stats.get("d2", []))}
     if models and models[0]:
         run.cov["samples"] = [{"case": case_key(cases[0]), "model_obs": [s["obs"] for s in models[0]["steps"]][:12]},
                               {"case": case_key(cases[-1])}]
